@@ -26,6 +26,9 @@ def main():
             continue
         meta = json.load(open(os.path.join(d, 'meta.json')))
         props = meta.get('checks') or [meta['property']]
+        if meta.get('obsolete'):
+            print(sid, '/'.join(props), 'OBSOLETE', meta['obsolete'][:120], flush=True)
+            continue
         scratch = tempfile.mkdtemp(prefix='aeicverif-seeded-')
         try:
             shutil.copytree(os.path.join(REPO, 'src'), os.path.join(scratch, 'src'))
